@@ -139,6 +139,9 @@ class Cosmo(object):
 
         self._four_pi_G_over_c_squared = four_pi_G_over_c_squared(dunits="Mpc")
 
+        # it used to be capilalized
+        self.Distmod = self.distmod
+
     def __repr__(self):
         rep = """
         H0:      %s
@@ -153,9 +156,6 @@ class Cosmo(object):
             self.flat,
         )
         return rep
-
-        # it used to be capilalized
-        self.Distmod = self.distmod
 
     def DH(self):
         """
